@@ -81,7 +81,7 @@ def django_load(inst):
     for i, r in enumerate(inst["items"]):
         items.append(M.Item(id=r.get("id", i + 1), i1=r.get("i1"), i2=r.get("i2"), r1=r.get("r1"), s1=r.get("s1"),
                             s2=r.get("s2"), b1=r.get("b1"), t1=_aware(r.get("t1")), d1=_date(r.get("d1")),
-                            k=r.get("k", 0), owner_id=r.get("owner"), home_id=r.get("home")))
+                            k=r.get("k", 0), owner_id=r.get("owner"), home_id=r.get("home"), co_owner_id=r.get("co_owner")))
     M.Item.objects.bulk_create(items)
     through = M.Item.tags.through
     links = []
@@ -214,8 +214,12 @@ def sqlalchemy_models():
         g1 = sa.Column(sa.String)
         owner_id = sa.Column(sa.ForeignKey("owner.id"))
         home_id = sa.Column(sa.ForeignKey("region.id"))
+        co_owner_id = sa.Column(sa.ForeignKey("country.id"))
         owner = relationship("Owner", back_populates="items")
         home = relationship("Region")
+        # a relationship whose name ends in the name of another one: only base queries join it (it points at
+        # Country so that joining it never adds a table the filter's own `owner` path needs - known finding A8)
+        co_owner = relationship("Country")
         parts = relationship("Part", back_populates="item")
         tags = relationship("Tag", secondary=item_tags, back_populates="items")
 
@@ -285,7 +289,7 @@ def sqlalchemy_load(inst):
         iid = r.get("id", i + 1)
         rows.append({"id": iid, "i1": r.get("i1"), "i2": r.get("i2"), "r1": r.get("r1"), "s1": r.get("s1"),
                      "s2": r.get("s2"), "b1": r.get("b1"), "t1": _naive(r.get("t1")), "d1": _date(r.get("d1")),
-                     "k": r.get("k", 0), "owner_id": r.get("owner"), "home_id": r.get("home")})
+                     "k": r.get("k", 0), "owner_id": r.get("owner"), "home_id": r.get("home"), "co_owner_id": r.get("co_owner")})
         for tid in r.get("tags", []):
             links.append({"item_id": iid, "tag_id": tid})
     c.execute(S.Item.__table__.insert(), rows)
